@@ -456,7 +456,10 @@ class HelicityAmplitudeBuilder:
 
         amplitude = self.config.spin_alignment.formulate_amplitude(self.reaction)
         spin_projections = collect_spin_projections(self.reaction)
-        return PoolSum(sp.Abs(amplitude) ** 2, *spin_projections.items())
+        return PoolSum(
+            sp.Abs(amplitude) ** 2,
+            *((symbol, sorted(values)) for symbol, values in spin_projections.items()),
+        )
 
     def __register_amplitudes(self, transition_group: list[StateTransition]) -> None:
         transition_by_topology = group_by_topology(transition_group)
